@@ -175,7 +175,9 @@ fn extract(tokens: &str) -> Result<Extracted, String> {
                 }
                 syn::Item::Type(t) => {
                     ex.defined.push(t.ident.to_string());
-                    ex.aliases.insert(t.ident.to_string(), norm_ty(&t.ty));
+                    // a second definition of the same alias must not hide behind the first
+                    let v = norm_ty(&t.ty);
+                    ex.aliases.entry(t.ident.to_string()).and_modify(|old| *old = format!("{} AND {}", old, v)).or_insert(v);
                 }
                 _ => {}
             }
@@ -205,8 +207,13 @@ pub fn run(report: &mut Report, replay: Option<&Value>) {
             report.infra(format!("C13 case for {:?} is invalid by the model", kind));
             return;
         }
-        for fmt in ["sdl", "json"] {
-            let sp = if fmt == "sdl" { scratch.file(&schema.to_sdl(&SdlStyle::default()), "graphql") } else { scratch.file(&schema.to_introspection_text(&JsonStyle::default()), "json") };
+        for fmt in ["sdl", "json", "sdl_builtin_scalars_declared"] {
+            let sp = match fmt {
+                "sdl" => scratch.file(&schema.to_sdl(&SdlStyle::default()), "graphql"),
+                "json" => scratch.file(&schema.to_introspection_text(&JsonStyle::default()), "json"),
+                // some schema dumps spell out `scalar Int`, `scalar ID`, ...: the built-in mapping must not change
+                _ => scratch.file(&schema.to_sdl(&SdlStyle { declare_builtin_scalars: true, ..SdlStyle::default() }), "graphqls"),
+            };
             jobs.push(Job { schema_path: sp, query: QuerySrc::Text(q.clone()), opts: Opts::default(), cwd: None });
             metas.push((kind, fmt, schema.type_name(named).to_string()));
         }
